@@ -9,7 +9,7 @@
 (* tokens as the grammar of CMake.g4 does.  RefAgree: both agree and no     *)
 (* error is reported.  A fault (C06) can be injected at any position.       *)
 (***************************************************************************)
-EXTENDS CMakeLex, Json
+EXTENDS CMakeLex, CMakeLang, Json
 
 CONSTANTS Idents,      \* identifier texts (sequences of class symbols)
           ArgMenu,     \* reference-valid single arguments: [form, t]
@@ -99,11 +99,19 @@ ParseToks(toks, txt) ==
 \* C05: every file derivable from the reference productions is lexed without error and grouped into the
 \* same commands with the same argument boundaries.  (One LET so that the text is lexed once per state.)
 RefAgreeOn(lx, ps) == lx.errs = <<>> /\ ps.ok /\ ps.cmds = cmds
+\* the token kinds of the lexer model in the alphabet of CMakeLang / CMakeParse
+KindOf(k) == CASE k = "Identifier" -> "id" [] k = "(" -> "lp" [] k = ")" -> "rp" [] k = "Unquoted_argument" -> "unq"
+               [] k = "Quoted_argument" -> "quo" [] k = "Bracket_argument" -> "brk" [] k = "Docstring" -> "doc"
+               [] k = "Module_docstring" -> "mdoc" [] OTHER -> "other"
+\* the fold above groups the tokens into commands exactly when the kinds form a sentence of the grammar
+\* (with or without an injected fault: what the parser sees is whatever the lexer's recovery left)
+ParsersAgree(lx, ps) == LET ks == [j \in 1..Len(lx.toks) |-> KindOf(lx.toks[j].k)] IN ps.ok <=> WellFormed(ks)
 RefAgree ==
   Complete =>
     LET lx == Lex(text)
         ps == ParseToks(lx.toks, text)
     IN /\ (fault.pos = 0 => RefAgreeOn(lx, ps))
+       /\ ParsersAgree(lx, ps)
        /\ PrintT(<<"BEH", ToJson([text |-> text, cmds |-> cmds, fault |-> fault, lexerrs |-> lx.errs, parseok |-> ps.ok,
                                   implcmds |-> ps.cmds,
                                   toks |-> [j \in 1..Len(lx.toks) |-> [k |-> lx.toks[j].k, from |-> lx.toks[j].from, to |-> lx.toks[j].to]]])>>)
